@@ -306,6 +306,8 @@ def refract(n, nprime, S, r):
         Sprime, a length 3 vector containing the exitant direction cosines
 
     """
+    # at least 2D turns (3,) -> (1,3), as in reflect, so a single ray is handled like a batch of one
+    S, r = np.atleast_2d(S, r)
     # r is the surface gradient as produced by Surface.sag_normal: Snell's law in vector form needs the unit normal
     r = r / np.sqrt(_multi_dot(r, r))[:, np.newaxis]
     mu = n/nprime
